@@ -156,4 +156,10 @@ def fqPre (acc nb : Int) (sw sx σx : Rat) : Rat := (acc : Rat) * (sw * σx) + (
 def fqLevel (eps : Rat) (pOut : Nat) (clipY : Rat) (acc nb : Int) (sw sx σx : Rat) : Int :=
   pactLevelE eps pOut clipY (fqPre acc nb sw sx σx)
 
+/-- what PACT's stabiliser contributes to the difference of the pre-rounding values of the integer
+layer and of its fake-quantized counterpart: `acc·s_w·(s_x/s_y − σx/σy) + n_b·s_x·s_w·(1/s_y − 1/σy)`
+(`s` reported scales, `σ` steps actually used); it is `0` when `σ = s` -/
+def stabTerm (acc nb : Int) (sw sx σx sy σy : Rat) : Rat :=
+  (acc : Rat) * sw * (sx / sy - σx / σy) + (nb : Rat) * sx * sw * (1 / sy - 1 / σy)
+
 end PlinioVerif.Integer
